@@ -37,7 +37,7 @@ def run(tier, seed, replay=None):
     proof_ok = C.proof_part(rep, "IR/Properties_C03.v", ["Generated/Builtins.vo", "IR/Check.vo", "IR/DiffProofs.vo"],
                             ["IR", "Types", "Generated"])
     langs = {l: T.Lang(l) for l in T.LANGS}
-    nper = int(os.environ.get("VERIF_C03_N", "8")) if tier == "quick" else 300
+    nper = int(os.environ.get("VERIF_C03_N", "20")) if tier == "quick" else 300
     items = []
     crashes = []
     t0 = time.time()
